@@ -697,6 +697,83 @@ pub fn suite_text_raw(ctx: &mut Ctx, suite: &str, n: u64) {
     }
 }
 
+/// the token alphabet of the exhaustive enumeration: one representative per syntactic role
+const ENUM_ATOMS: &[&str] = &[
+    "1", "0x1F", "a", "(", ")", ",", ";", "+", "-", "=", "<", "let", "loop", "end", "while", "repeat", "bits", "declare",
+    "resetRandom", "C", "X", "\n", "program", "random",
+];
+
+/// every token sequence of length 1..=max_len over `ENUM_ATOMS` behind the header `A B`, exhaustively
+/// (partitioned over the parallel processes of a check): verdict, AST and spans against the model,
+/// no panic, spans inside the text
+pub fn suite_text_enum(ctx: &mut Ctx, suite: &str, max_len: u32) {
+    if ctx.only_suite.as_deref().map(|s| s != suite).unwrap_or(false) {
+        return;
+    }
+    let prop = ctx.prop.clone();
+    let base = ENUM_ATOMS.len() as u64;
+    let mut idx: u64 = 0;
+    let mut total: u64 = 0;
+    for len in 1..=max_len {
+        let count = base.pow(len);
+        for code in 0..count {
+            idx += 1;
+            let cs = case_seed(0, suite, idx);
+            if let Some(c) = ctx.only_case {
+                if c != cs {
+                    continue;
+                }
+            } else if idx % ctx.parts != ctx.part {
+                continue;
+            }
+            if ctx.too_many() {
+                return;
+            }
+            let mut src = String::from("A B\n");
+            let mut c = code;
+            for k in 0..len {
+                if k > 0 {
+                    src.push(' ');
+                }
+                src.push_str(ENUM_ATOMS[(c % base) as usize]);
+                c /= base;
+            }
+            // with and without a final newline (the parser's end-of-input paths differ)
+            if code % 2 == 1 {
+                src.push('\n');
+            }
+            ctx.tick(&src);
+            let (il, _) = imp::parse_line(&src);
+            let m = ask_parse(ctx, &src);
+            ctx.report.evaluations += 1;
+            total += 1;
+            let key = fnv(&src);
+            ctx.report.distinct.insert(key);
+            ctx.report.nontrivial.insert(key);
+            ctx.report.bump(if il.starts_with("parse ok") { "parse-ok" } else if il.starts_with("parse err") { "parse-err" } else { "parse-panic" });
+            let il = vec![il];
+            let (a, b) = (significant(&il), significant(&m));
+            let (pa, pb) = if prop == "C09" { (a, b) } else { (project(&prop, &il), project(&prop, &m)) };
+            if pa != pb {
+                add_finding(ctx, "model", suite, cs, first_diff(&pa, &pb), src.clone(), &il, &m);
+            }
+            if il[0].starts_with("parse panic") {
+                add_finding(ctx, "oracle", suite, cs, format!("parser panicked: {}", il[0]), src.clone(), &il, &m);
+            }
+            if let Some(p) = span_problem(&src, &il[0]) {
+                add_finding(ctx, "oracle", suite, cs, p, src.clone(), &il, &m);
+            }
+        }
+    }
+    let note = format!(
+        "exhaustive: every token sequence of length 1..={max_len} over {} tokens behind the header `A B` (this process: {total} of them, part {} of {})",
+        ENUM_ATOMS.len(),
+        ctx.part,
+        ctx.parts
+    );
+    ctx.report.exhaustive.push(note);
+}
+
 /// one grammar-breaking edit; returns (text, invalid by construction?, label)
 fn mutate(prog: &Prog, r: &mut Prng, style: &Style) -> (String, bool, &'static str) {
     let mut p = prog.clone();
@@ -1478,11 +1555,13 @@ pub fn run_property(ctx: &mut Ctx) {
             suite_text_valid(ctx, "text-valid", k(800, 40000));
         }
         "C09" => {
+            suite_text_enum(ctx, "text-enum", if ctx.tier == "thorough" { 4 } else { 3 });
             suite_text_raw(ctx, "text-raw", k(2500, 150000));
             suite_text_mutants(ctx, "text-mutants", k(1500, 80000));
             suite_lex(ctx, "lex", k(300, 20000));
         }
         "C12" => {
+            suite_text_enum(ctx, "text-enum", if ctx.tier == "thorough" { 4 } else { 3 });
             suite_text_mutants(ctx, "text-mutants", k(2500, 120000));
             suite_text_valid(ctx, "text-valid", k(600, 30000));
         }
